@@ -30,12 +30,17 @@ def run(ev, vd):
                 raise ToolError("vacuity guard: mutant configuration %s of %s should violate an invariant" % (c, m))
     ev.cov["model_mutants_detected"] = len(MUTANTS)
     jobs = [("ctl", cbin("doall"), t) for t in conc.TOPOS_CTL] + [("jitter", cbin("doall"), None), ("jitter", cbin("doall"), "2x2"),
-            ("free", fbin("doall"), None), ("free", fbin("doall"), "2x4"), ("free", fbin("doall"), "3+1")]
+            ("free", fbin("doall"), None), ("free", fbin("doall"), "2x4"), ("free", fbin("doall"), "3+1"),
+            # sequences of regions over the whole pool (1..16 threads) confined to one resp. two CPUs
+            ("pool16", ["taskset", "-c", "0", fbin("doall")], None), ("pool16", ["taskset", "-c", "0,1", fbin("doall")], None)]
 
     def job(j):
         k, (mode, binp, topo) = j
         out = os.path.join(BUILD, "tmp", "doall_%d.ndjson" % k)
-        rc, o, dt = conc.run_harness(binp, [out, ev.seed * 100 + k, tier(), mode], topo=topo, timeout=600)
+        if isinstance(binp, list):
+            rc, o, dt = conc.run_harness(binp[0], binp[1:] + [out, ev.seed * 100 + k, tier(), mode], topo=topo, timeout=900)
+        else:
+            rc, o, dt = conc.run_harness(binp, [out, ev.seed * 100 + k, tier(), mode], topo=topo, timeout=600)
         return j, out, rc, o
     with cf.ThreadPoolExecutor(max_workers=8) as ex:
         results = list(ex.map(job, list(enumerate(jobs))))
@@ -43,6 +48,8 @@ def run(ev, vd):
     for (k, (mode, binp, topo)), out, rc, o in results:
         if rc == 124:
             vd.violation(dict(component="do_all/regions", op="hang-" + mode), "doall harness (%s, topo %s) did not return" % (mode, topo), dict(mode=mode, topo=topo))
+        elif mode == "pool16" and rc not in (0, 3):
+            vd.violation(dict(component="do_all/regions", op="crash-" + mode), "thread pool region sequence aborted (rc=%s): %s" % (rc, o[-300:]), dict(mode=mode, out=o[-1500:]))
         elif rc not in (0, 3, 43, 44):
             raise ToolError("doall harness failed rc=%s (%s %s):\n%s" % (rc, mode, topo, o[-1500:]))
         paths.append(out)
